@@ -1,5 +1,6 @@
 import Lean.Data.Json
 import Pyvsc.Model.Ctor
+import Pyvsc.Model.Override
 /-! driver op `t.ctor`: run a history of API calls with fault positions on the stack model -/
 open Lean
 namespace Pyvsc.DrvCtor
@@ -26,7 +27,45 @@ def jStacks (s : Stacks) : Json :=
   Json.arr ((#[s.scope, s.exprs, s.foreachS, s.srcinfo, s.exprMode, s.rawMode, s.overrides, (if s.staleVars then 1 else 0)] : Array Nat).map
     fun n => Json.num (JsonNumber.fromNat n))
 
+/-! driver op `t.rollback`: the statement tree of an object as read from the implementation before a
+    call; answer: the tree after a complete call of the model (`Stmt.call`), its clean flag, and the
+    replacement tags in use during the call -/
+open Pyvsc.Ovr in
+mutual
+  partial def stmtOf (j : Json) : Except String Stmt := do
+    match ← (← j.getObjVal? "k").getStr? with
+    | "atom" => pure (.atom 0)
+    | "x" => do pure (.expandable (← stmtsOf (← (← j.getObjVal? "b").getArr?).toList))
+    | "scope" => do pure (.scope (← stmtsOf (← (← j.getObjVal? "b").getArr?).toList))
+    | "ovr" => do pure (.override (← stmtOf (← j.getObjVal? "orig")) 0 (← (← j.getObjVal? "d").getNat?))
+    | k => throw s!"unknown statement kind {k}"
+  partial def stmtsOf (l : List Json) : Except String Stmts :=
+    match l with
+    | [] => pure .nil
+    | x :: r => do pure (.cons (← stmtOf x) (← stmtsOf r))
+end
+
+open Pyvsc.Ovr in
+mutual
+  partial def jStmt : Stmt → Json
+    | .atom _ => Json.mkObj [("k", Json.str "atom")]
+    | .expandable b => Json.mkObj [("k", Json.str "x"), ("b", Json.arr (jStmts b).toArray)]
+    | .scope b => Json.mkObj [("k", Json.str "scope"), ("b", Json.arr (jStmts b).toArray)]
+    | .override o _ d => Json.mkObj [("k", Json.str "ovr"), ("orig", jStmt o), ("d", Json.num (d : Nat))]
+  partial def jStmts : Stmts → List Json
+    | .nil => []
+    | .cons s r => jStmt s :: jStmts r
+end
+
+open Pyvsc.Ovr in
+def handleRollback (j : Json) : Except String Json := do
+  let t ← stmtOf (← j.getObjVal? "tree")
+  pure (Json.mkObj [("clean", Json.bool t.clean), ("after", jStmt (t.call 1)),
+    ("in_call_active", Json.num ((t.expand 1).active.length : Nat)),
+    ("in_call_fresh", Json.bool ((t.expand 1).active.all (· == 1)))])
+
 def handle (op : String) (j : Json) : Except String Json := do
+  if op == "t.rollback" then return ← handleRollback j
   if op != "t.ctor" then throw s!"unknown op {op}"
   let ops ← (← j.getObjVal? "ops").getArr?
   let mut st : Stacks := {}
